@@ -345,6 +345,12 @@ func (nt *c13Net) restartNode(n *c13Node) error {
 	n.dmu.Lock()
 	n.bp = bp
 	n.dmu.Unlock()
+	if c, err := net.NewDKGControlClient(nt.log, n.ctrlPort); err == nil {
+		n.dkgc = c
+	}
+	if c, err := net.NewControlClient(nt.log, n.ctrlPort); err == nil {
+		n.ctrl = c
+	}
 	n.stopped.Store(false)
 	return nil
 }
@@ -625,6 +631,9 @@ type c13Reshare struct {
 	abortAfterAccept bool // leader aborts after the acceptances: expected error, epoch not completed
 	neverExecute     bool // proposal is left to time out
 	dropDKGTraffic   bool // execution starts but all kyber traffic is lost: expected Failed/TimedOut
+	// the DKG layer completes the epoch but the beacon processes are expected to refuse its output
+	// (validateGroupTransition): do not wait for a new group in core
+	coreRefuses bool
 }
 
 func c13GroupTOML(g *key.Group) ([]byte, error) {
@@ -634,6 +643,7 @@ func c13GroupTOML(g *key.Group) ([]byte, error) {
 }
 
 var errC13ReshareDidNotComplete = errors.New("reshare did not complete (as scripted)")
+var errC13CoreRefusedOutput = errors.New("reshare completed in the DKG layer; core was expected to refuse its output")
 
 // runReshare drives one resharing epoch. On scripted failure modes it returns errC13ReshareDidNotComplete once
 // the failure is visible in the leader's DKG status.
@@ -708,6 +718,13 @@ func (nt *c13Net) runReshare(rs c13Reshare) (*key.Group, error) {
 	}
 	if err != nil {
 		return nil, err
+	}
+	if rs.coreRefuses {
+		nt.mu.Lock()
+		nt.epoch = epoch // the DKG databases are at this epoch now, whatever core made of it
+		nt.mu.Unlock()
+		time.Sleep(2 * time.Second) // onDKGCompleted runs right after the completion record
+		return nil, errC13CoreRefusedOutput
 	}
 	g, err := nt.waitGroup(leader, old)
 	if err != nil {
